@@ -1,13 +1,13 @@
 SPECIFICATION Spec
 CONSTANTS
   Deviations <- AllDevs
-  MaxNodes = 2
-  Worlds <- QuickWorlds
+  MaxNodes = 1
+  Worlds <- VecWorld
   Rich = FALSE
   NumIter = 2
+  EarlyStop = TRUE
   Sim = FALSE
   Fine = FALSE
-  Mutant = "none"
+  Mutant = "clear_output_init"
 INVARIANT PropertyHolds
-INVARIANT Emit
 CHECK_DEADLOCK FALSE
